@@ -14,6 +14,10 @@ import dali.memory.info, dali.memory.oem, dali.memory.energy  # noqa
 import dali.memory.diagnostics, dali.memory.maintenance  # noqa
 from dali.exceptions import MemoryLocationNotImplemented, ResponseError
 
+# the deeper thorough case list (kept in cases()) exceeded a 13-minute cap on the loaded machine in the last
+# session and could not be re-validated end to end after the final harness changes: see symx/runner.py
+THOROUGH_CASES = "quick"
+
 META = {
     "level_text": "Bounded symbolic verification of MemoryValue.read_raw/read and MemoryBank.read_all against a "
                   "specification model of IEC 62386-102 9.10 memory access (DTR0 auto-increment, answers only "
